@@ -97,7 +97,7 @@ Proof. exact (bad_final_elim _ _ _ refute_returns_orig). Qed.
 Print Assumptions C10_returns_refuted.
 
 Theorem C10_returns_refuted_without_done_signal : exists s,
-  reachable (mkCfg true false true true) s /\ quiescentb (mkCfg true false true true) s = true
+  reachable (mkCfg true false true true true) s /\ quiescentb (mkCfg true false true true true) s = true
   /\ trig s = true /\ not_returned s = true.
 Proof. exact (bad_final_elim _ _ _ refute_returns_no_done). Qed.
 
@@ -108,7 +108,7 @@ Proof. exact (bad_final_elim _ _ _ refute_upstream_orig). Qed.
 Print Assumptions C10_upstream_closed_on_return_refuted.
 
 Theorem C10_upstream_closed_refuted_without_close : exists s,
-  reachable (mkCfg false true true true) s /\ quiescentb (mkCfg false true true true) s = true
+  reachable (mkCfg false true true true true) s /\ quiescentb (mkCfg false true true true true) s = true
   /\ trig s = true /\ (returned s && negb (sc_closed s)) = true.
 Proof. exact (bad_final_elim _ _ _ refute_upstream_no_close). Qed.
 
@@ -125,7 +125,7 @@ Proof. exact (bad_final_elim _ _ _ refute_emit_orig). Qed.
 Print Assumptions C10_emit_into_dead_channel_refuted.
 
 Theorem C10_emit_refuted_without_abort : exists s,
-  reachable (mkCfg true true false true) s /\ quiescentb (mkCfg true true false true) s = true
+  reachable (mkCfg true true false true true) s /\ quiescentb (mkCfg true true false true true) s = true
   /\ trig s = true /\ stuck_in_emit s = true.
 Proof. exact (bad_final_elim _ _ _ refute_emit_no_abort). Qed.
 
@@ -138,6 +138,16 @@ Theorem C10_returns_refuted_with_unbuffered_writerErr : exists s,
   /\ trig s = true /\ handoff_deadlock s = true.
 Proof. exact (bad_final_elim _ _ _ refute_unbuffered_werr). Qed.
 Print Assumptions C10_returns_refuted_with_unbuffered_writerErr.
+
+(* sendWindowUpdates returning early with destMu locked (the repairs otherwise in place): the credit
+   for a client DATA frame fails to be written, the reader leaves with the client-side destMu locked,
+   the server->client writer that has a frame for the client waits for that mutex for ever; proxy
+   shutdown and the client going away change nothing *)
+Theorem C10_returns_refuted_with_leaked_destMu : exists s,
+  reachable cfg_destmu_leak s /\ quiescentb cfg_destmu_leak s = true
+  /\ trig s = true /\ lock_leaked_writer_stuck s = true.
+Proof. exact (bad_final_elim _ _ _ refute_destmu_leak). Qed.
+Print Assumptions C10_returns_refuted_with_leaked_destMu.
 
 (* what does hold of the relay as it was: proxy shutdown makes Proxy return
    unless a reader is wedged on the output channel of a direction whose writer
@@ -170,6 +180,14 @@ Proof. vm_compute. reflexivity. Qed.
    blocks = false of C10_returns hold in its final state *)
 Example C10_example_late_write_failure :
   match run cfg_fixed init (w_blocked_write_fails_late ++ [IHandshake Cl; IStop Cl; IJoin; ICallerClose; IReadEnd Cl]) with
+  | Some s => quiescentb cfg_fixed s && trig s && negb (blocks s Cl) && negb (blocks s Sv) && c10_ok (obs_of s)
+  | None => false
+  end = true.
+Proof. vm_compute. reflexivity. Qed.
+
+(* the repaired relay releases destMu: the same run unwinds *)
+Example C10_example_credit_failure :
+  match run cfg_fixed init (w_credit_fails_writer_waits ++ [IWSend Sv true; IHandshake Sv; IStop Sv; IJoin; ICallerClose; IReadEnd Sv]) with
   | Some s => quiescentb cfg_fixed s && trig s && negb (blocks s Cl) && negb (blocks s Sv) && c10_ok (obs_of s)
   | None => false
   end = true.
